@@ -94,13 +94,13 @@ func drawStatic(t *rapid.T) staticCase {
 	var c staticCase
 	var n int
 	switch sz := rapid.IntRange(0, 99).Draw(t, "sizeclass"); {
-	case sz < 3:
+	case sz < 2:
 		n = rapid.IntRange(0, 1).Draw(t, "n")
-	case sz < 52:
+	case sz < 40:
 		n = rapid.IntRange(2, 6).Draw(t, "n")
-	case sz < 78:
+	case sz < 74:
 		n = rapid.IntRange(7, 9).Draw(t, "n")
-	case sz < 93:
+	case sz < 92:
 		n = rapid.IntRange(10, 25).Draw(t, "n")
 	default:
 		n = rapid.IntRange(26, 60).Draw(t, "n")
